@@ -34,7 +34,15 @@ pub enum Len {
 #[derive(Clone, Debug, Serialize, Deserialize)]
 pub enum Case {
     Bytes { len: Len, seed: u64, mode: u8, follow: u8 },
-    Typed { plan: NP, pad: Option<Len>, mode: u8 },
+    Typed {
+        plan: NP,
+        pad: Option<Len>,
+        mode: u8,
+        /// a send whose serialisation fails after emitting this many bytes precedes the real
+        /// send on the same thread (None = no failed send before)
+        #[serde(default)]
+        after_failed: Option<u16>,
+    },
     Static { kind: u8, seed: u64, n: u16, mode: u8 },
 }
 
@@ -260,7 +268,9 @@ impl Prop for C01 {
             5 => (len_strategy(max_exp), any::<u64>(), 0u8..2, any::<u8>())
                 .prop_map(|(len, seed, mode, follow)| Case::Bytes { len, seed, mode, follow }),
             4 => (node::data_tree(depth, 96), proptest::option::weighted(0.3, len_strategy(max_exp.min(19))), 0u8..3)
-                .prop_map(|(plan, pad, mode)| Case::Typed { plan, pad, mode }),
+                .prop_map(|(plan, pad, mode)| Case::Typed { plan, pad, mode, after_failed: None }),
+            1 => (node::data_tree(depth, 48), proptest::option::weighted(0.3, len_strategy(max_exp.min(16))), 0u8..3, 0u16..3000)
+                .prop_map(|(plan, pad, mode, n)| Case::Typed { plan, pad, mode, after_failed: Some(n) }),
             1 => (0u8..3, any::<u64>(), 0u16..400, 0u8..3)
                 .prop_map(|(kind, seed, n, mode)| Case::Static { kind, seed, n, mode }),
         ]
@@ -275,7 +285,7 @@ impl Prop for C01 {
             for delta in -16i8..=16 {
                 v.push(Case::Bytes { len: Len::Boundary { k, delta }, seed: 0x5eed ^ ((k as u64) << 8) ^ (delta as u8 as u64), mode: (delta as u8) & 1, follow: delta as u8 });
                 if delta % 4 == 0 || ctx.thorough {
-                    v.push(Case::Typed { plan: NP::U8(k), pad: Some(Len::Boundary { k, delta }), mode: (delta as u8) % 3 });
+                    v.push(Case::Typed { plan: NP::U8(k), pad: Some(Len::Boundary { k, delta }), mode: (delta as u8) % 3, after_failed: if delta == 0 { Some(100 * k as u16) } else { None } });
                 }
             }
         }
@@ -332,7 +342,7 @@ impl Prop for C01 {
                 let (nt, class) = classify_len("bytes", n, pk);
                 Ok(Outcome::new(nt, class).with("packets", pk))
             },
-            Case::Typed { plan, pad, mode } => {
+            Case::Typed { plan, pad, mode, after_failed } => {
                 let mut value = node::build(plan, &mut NoEndpoints);
                 let mut target = None;
                 if let Some(p) = pad {
@@ -348,7 +358,15 @@ impl Prop for C01 {
                 let want = node::rendered(&value);
                 let size = target.unwrap_or_else(|| bincode::serialized_size(&value).unwrap() as usize);
                 let (tx, rx) = ipc::channel::<Node>().map_err(|e| Failure::inconclusive(format!("channel: {}", e)))?;
+                let after_failed = *after_failed;
                 let sender = std::thread::spawn(move || {
+                    if let Some(n) = after_failed {
+                        // a rejected send on this thread must leave no trace in the next message
+                        let (ftx, _frx) = ipc::channel::<Node>().unwrap();
+                        let ftx: ipc::IpcSender<FailsAfter> = ftx.to_opaque().to();
+                        let r = ftx.send(FailsAfter(n as usize));
+                        assert!(r.is_err());
+                    }
                     ip::log_start(ip::gettid());
                     let r1 = tx.send(value);
                     let ev = ip::log_stop();
@@ -382,7 +400,9 @@ impl Prop for C01 {
                 let pk = packets(&ev);
                 let rich = node::depth(plan) >= 3 && node::is_rich(plan);
                 let (nt_len, class_len) = classify_len("typed", size, pk);
-                if nt_len {
+                if after_failed.is_some() {
+                    Ok(Outcome::new(true, format!("{}+after-failed-send", class_len)).with("packets", pk))
+                } else if nt_len {
                     Ok(Outcome::new(true, class_len).with("packets", pk))
                 } else if rich {
                     Ok(Outcome::new(true, "typed/deep-rich").with("packets", pk))
@@ -414,6 +434,24 @@ impl Prop for C01 {
                 Ok(Outcome::new(*n >= 4, "static-types"))
             },
         }
+    }
+}
+
+/// Emits `n` bytes and then reports a serialisation error.
+struct FailsAfter(usize);
+impl Serialize for FailsAfter {
+    fn serialize<S: serde::Serializer>(&self, s: S) -> Result<S::Ok, S::Error> {
+        use serde::ser::SerializeTuple;
+        let mut t = s.serialize_tuple(self.0 + 1)?;
+        for i in 0..self.0 {
+            t.serialize_element(&(i as u8))?;
+        }
+        Err(serde::ser::Error::custom("scripted failure"))
+    }
+}
+impl<'de> Deserialize<'de> for FailsAfter {
+    fn deserialize<D: serde::Deserializer<'de>>(_d: D) -> Result<Self, D::Error> {
+        Err(serde::de::Error::custom("never decoded"))
     }
 }
 
